@@ -192,6 +192,31 @@ def main():
                 if bad:
                     h.violation(f"level0:{mode}", f"{nm} system ({mode}): {bad}", input={"system": nm, "mode": mode}, observed=bad)
                 h.case(("level0", mode, nm))
+    # history on ONE Tile object handed out by the enumerations: its grid, then a coordinate filter is asked about it (as a
+    # filter-then-sample loop does), then its grid again
+    try:
+        from toasty import samplers as SMP
+        flt_ = SMP._latlon_tile_filter(0.3, 2.9, -0.9, 1.1)
+        for nm, cs in systems:
+            gens = [("generate_tiles", toast.generate_tiles(3, bottom_only=False, coordsys=cs)),
+                    ("generate_tiles_filtered", toast.generate_tiles_filtered(3, (lambda t: True), bottom_only=False, coordsys=cs))]
+            for gname, gen in gens:
+                tl = [t for t in gen if t.pos.n in (2, 3)]
+                rng.shuffle(tl)
+                badf = None
+                for t in tl[:6]:
+                    l1, b1 = (np.array(a, copy=True) for a in toast.toast_tile_get_coords(t))
+                    flt_(t)
+                    l2, b2 = toast.toast_tile_get_coords(t)
+                    if not (np.array_equal(l1, l2) and np.array_equal(b1, b2)):
+                        badf = f"tile {tuple(t.pos)} from {gname}: after a lon/lat-box filter was asked about it, its grid differs at {int(np.sum((l1 != l2) | (b1 != b2)))} pixels"
+                        break
+                h.case(("filter-then-grid", nm, gname))
+                h.count("history", "filter-then-grid")
+                if badf:
+                    h.violation("history:filter", f"{nm} system: {badf}", input={"system": nm, "route": gname, "history": ["toast_tile_get_coords", "_latlon_tile_filter(tile)", "toast_tile_get_coords"]}, observed=badf)
+    except Exception as e:
+        h.violation("history:filter:crash", f"grid / filter / grid on enumerated tiles raised {type(e).__name__}: {e}", input="filter-then-grid")
     # the grid a SAMPLER is handed: `sample_layer` in one coordinate system and then in the other, in one process (whatever the
     # sampling machinery retains between runs must not carry a grid from one system into the other); level 1 and the level-0 tile
     import shutil
